@@ -4,6 +4,7 @@ import Mathlib.Tactic.Positivity
 import Mathlib.Tactic.FieldSimp
 import Mathlib.Algebra.Order.Field.Rat
 import GeoVerif.Model.CashFlow
+import GeoVerif.Lemmas.Series
 namespace GeoVerif
 
 /-- a turn year: cumulative cash flow goes from non-positive to positive between i-1 and i -/
@@ -75,3 +76,159 @@ end GeoVerif
 
 #print axioms GeoVerif.payback_within_turn_year
 #print axioms GeoVerif.pinned_payback_counterexample
+
+namespace GeoVerif
+
+/-! ### cash-flow assembly -/
+
+theorem assemble_length (s : CashIn) : (assemble s).length = s.cy + s.L := by
+  simp [assemble]
+
+theorem assemble_construction (s : CashIn) (i : Nat) (hi : i < s.cy) :
+    (assemble s).getD i 0 = -(s.ccap / (s.cy : Rat)) := by
+  unfold assemble
+  rw [List.getD_eq_getElem?_getD, List.getElem?_append_left (by simpa using hi)]
+  simp [hi]
+
+theorem assemble_operating (s : CashIn) (i : Nat) (hi : i < s.L) :
+    (assemble s).getD (s.cy + i) 0 = operatingCash s i := by
+  unfold assemble
+  rw [List.getD_eq_getElem?_getD, List.getElem?_append_right (by simp)]
+  simp [hi]
+
+/-! ### cumulative series -/
+
+theorem cumsumFrom_length (acc : Rat) (l : List Rat) : (cumsumFrom acc l).length = l.length := by
+  induction l generalizing acc with
+  | nil => simp [cumsumFrom]
+  | cons x xs ih => simp [cumsumFrom, ih]
+
+theorem cumsumFrom_getD (acc : Rat) (l : List Rat) (i : Nat) (hi : i < l.length) :
+    (cumsumFrom acc l).getD i 0 = acc + sumL (l.take (i + 1)) := by
+  induction l generalizing acc i with
+  | nil => simp at hi
+  | cons x xs ih =>
+    cases i with
+    | zero => simp [cumsumFrom, sumL]
+    | succ j =>
+      simp only [cumsumFrom, List.getD_cons_succ, List.take_succ_cons, sumL]
+      rw [ih (acc + x) j (by simpa using hi)]
+      ring
+
+theorem cumsum_getD (cf : List Rat) (i : Nat) (hi : i < cf.length) :
+    (cumsum cf).getD i 0 = sumL (cf.take (i + 1)) := by
+  unfold cumsum
+  rw [cumsumFrom_getD 0 cf i hi]; ring
+
+theorem cumsum_step (cf : List Rat) (i : Nat) (hi : i + 1 < cf.length) :
+    (cumsum cf).getD (i + 1) 0 = (cumsum cf).getD i 0 + cf.getD (i + 1) 0 := by
+  rw [cumsum_getD cf (i + 1) hi, cumsum_getD cf i (by omega)]
+  have : cf.take (i + 1 + 1) = cf.take (i + 1) ++ [cf.getD (i + 1) 0] := by
+    rw [List.take_add_one]
+    simp [List.getD_eq_getElem?_getD, List.getElem?_eq_getElem hi]
+  rw [this, sumL_append]
+  simp [sumL]
+
+/-! ### net present value -/
+
+theorem npvFrom_shift (r : Rat) (_hr : 1 + r ≠ 0) (t : Nat) (l : List Rat) :
+    npvFrom r (t + 1) l = npvFrom r t l / (1 + r) := by
+  induction l generalizing t with
+  | nil => simp [npvFrom]
+  | cons x xs ih =>
+    simp only [npvFrom]
+    rw [ih (t + 1), add_div, pow_succ, div_div]
+
+/-- the Excel-style convention discounts every flow by one more year -/
+theorem npv_conventions (r : Rat) (hr : 1 + r ≠ 0) (cf : List Rat) :
+    npv r cf true = npv r cf false / (1 + r) := by
+  simp only [npv, if_true, Bool.false_eq_true, if_false]
+  simp only [npvFrom, pow_zero, div_one, zero_add]
+  exact npvFrom_shift r hr 0 cf
+
+theorem npvFrom_closed (r : Rat) (t : Nat) (l : List Rat) :
+    npvFrom r t l = sumL ((List.range l.length).map (fun k => l.getD k 0 / (1 + r) ^ (t + k))) := by
+  induction l generalizing t with
+  | nil => simp [npvFrom, sumL]
+  | cons x xs ih =>
+    simp only [npvFrom, List.length_cons, List.range_succ_eq_map, List.map_cons, List.map_map, sumL,
+      List.getD_cons_zero, Nat.add_zero]
+    rw [ih (t + 1)]
+    congr 2
+    apply List.map_congr_left
+    intro k _
+    simp only [Function.comp, List.getD_cons_succ]
+    congr 2; omega
+
+theorem npvFrom_mono (r : Rat) (hr : 0 < 1 + r) (t : Nat) (l l' : List Rat) (hl : l.length = l'.length)
+    (h : ∀ i, l.getD i 0 ≤ l'.getD i 0) : npvFrom r t l ≤ npvFrom r t l' := by
+  induction l generalizing t l' with
+  | nil =>
+    cases l' with
+    | nil => simp
+    | cons y ys => simp at hl
+  | cons x xs ih =>
+    cases l' with
+    | nil => simp at hl
+    | cons y ys =>
+      simp only [npvFrom]
+      have h0 : x ≤ y := by simpa using h 0
+      have hp : 0 < (1 + r) ^ t := by positivity
+      have := ih (t + 1) ys (by simpa using hl) (fun i => by simpa using h (i + 1))
+      have : x / (1 + r) ^ t ≤ y / (1 + r) ^ t := div_le_div_of_nonneg_right h0 (le_of_lt hp)
+      linarith
+
+theorem npvFrom_strict_mono (r : Rat) (hr : 0 < 1 + r) (t : Nat) (l l' : List Rat) (hl : l.length = l'.length)
+    (h : ∀ i, l.getD i 0 ≤ l'.getD i 0) (j : Nat) (hj : j < l.length) (hs : l.getD j 0 < l'.getD j 0) :
+    npvFrom r t l < npvFrom r t l' := by
+  induction l generalizing t l' j with
+  | nil => simp at hj
+  | cons x xs ih =>
+    cases l' with
+    | nil => simp at hl
+    | cons y ys =>
+      simp only [npvFrom]
+      have h0 : x ≤ y := by simpa using h 0
+      have hp : 0 < (1 + r) ^ t := by positivity
+      have hrest := npvFrom_mono r hr (t + 1) xs ys (by simpa using hl) (fun i => by simpa using h (i + 1))
+      cases j with
+      | zero =>
+        have hxy : x < y := by simpa using hs
+        have : x / (1 + r) ^ t < y / (1 + r) ^ t := div_lt_div_of_pos_right hxy hp
+        linarith
+      | succ k =>
+        have := ih (t + 1) ys (by simpa using hl) (fun i => by simpa using h (i + 1)) k (by simpa using hj)
+          (by simpa using hs)
+        have : x / (1 + r) ^ t ≤ y / (1 + r) ^ t := div_le_div_of_nonneg_right h0 (le_of_lt hp)
+        linarith
+
+/-! ### payback: no turn year ⇒ reported as 0 (rendered N/A) -/
+
+theorem foldl_no_turn (cum : List Rat) (idx : List Nat)
+    (hno : ∀ i ∈ idx, ¬ (0 < cum.getD i 0 ∧ cum.getD (i - 1) 0 ≤ 0)) (p : Rat) :
+    idx.foldl (paybackStep cum (fun i => cum.getD (i - 1) 0)) p = p := by
+  induction idx generalizing p with
+  | nil => rfl
+  | cons a as ih =>
+    simp only [List.foldl_cons]
+    have : paybackStep cum (fun i => cum.getD (i - 1) 0) p a = p := by
+      simp only [paybackStep]
+      rw [if_neg (hno a (by simp))]
+    rw [this]
+    exact ih (fun i hi => hno i (by simp [hi])) p
+
+theorem payback_na (cum : List Rat) (hno : ∀ j, ¬ IsTurn cum j) : paybackFixed cum = 0 := by
+  unfold paybackFixed
+  apply foldl_no_turn
+  intro i hi hc
+  have hm := List.mem_of_mem_drop hi
+  have hlt : i < cum.length := by simpa using hm
+  have h1 : 1 ≤ i := by
+    by_contra hcon
+    have : i = 0 := by omega
+    subst this
+    rcases List.mem_iff_getElem.mp hi with ⟨k, hk, hk'⟩
+    simp at hk'
+  exact hno i ⟨h1, hlt, hc.2, hc.1⟩
+
+end GeoVerif
